@@ -115,6 +115,25 @@ def gen_pairs(ctx):
              ("units_merc_to_longlat", mk_area(crs_of("merc", 100.0, 0.0, r), 101.0, 12.0, 8000.0, 33, 29), mk_area(ll, 101.2, 12.1, 10000.0, 26, 17))]
     for tag, src, dst in units[:ctx.n(3, 4)]:
         pairs.append({"tag": tag, "src": src, "dst": dst, "coef": [r.randint(-40, 40) / 8.0, 1.25, -0.75]})
+    # source areas that are slices of bigger areas (non-zero row/column start; one and two slicing steps, as after a satpy crop):
+    # the oracle sees the sliced area's own extent and shape (computed here from the big area), the driver builds big[..][..]
+    def sliced(big, steps):
+        h, w = big["shape"]
+        x0, y0, x1, y1 = big["extent"]
+        dx, dy = (x1 - x0) / w, (y1 - y0) / h
+        for (r0, r1), (c0, c1) in steps:
+            x0, x1, y1, y0 = x0 + c0 * dx, x0 + c1 * dx, y1 - r0 * dy, y1 - r1 * dy
+            h, w = r1 - r0, c1 - c0
+        return {"proj": big["proj"], "shape": [h, w], "extent": [x0, y0, x1, y1], "from": {"big": big, "steps": steps}}
+    big1 = mk_area(crs_of("laea", 8.0, 48.0, r), 8.0, 48.0, 9000.0, 60, 70)
+    s1 = sliced(big1, [[[12 + r.randint(0, 5), 47], [20 + r.randint(0, 5), 57]]])
+    big2 = mk_area(crs_of("merc", 30.0, 0.0, r), 31.0, 35.0, 7000.0, 64, 72)
+    s2 = sliced(big2, [[[5, 57], [8, 68]], [[9 + r.randint(0, 4), 41], [6, 44 + r.randint(0, 5)]]])
+    for tag, src, dk, lon, lat in (("sliced1_laea_to_stere", s1, "stere", 8.5, 48.2), ("sliced2_merc_to_laea", s2, "laea", 31.2, 35.1)):
+        cx, cy = (src["extent"][0] + src["extent"][2]) / 2, (src["extent"][1] + src["extent"][3]) / 2
+        lo, la = Transformer.from_crs(PCRS.from_user_input(src["proj"]), "EPSG:4326", always_xy=True).transform(cx, cy)
+        pairs.append({"tag": tag, "src": src, "dst": mk_area(crs_of(dk, lon, lat, r), lo + 0.4, la - 0.3, 8000.0, 26, 21),
+                      "coef": [r.randint(-40, 40) / 8.0, 1.5, -0.625]})
     # wide / tall sources: global indices in the thousands (binary32 cannot hold their fraction), data of magnitude <= 1 with O(1) cell
     # differences so that the derived float32 bound (16 u max|data|) is far below the effect of a weight error
     def far_target(sp, src, dcol, drow, dk, res, shape):
@@ -316,7 +335,13 @@ def check_pair(ctx, pair, obs_by_chunk, cases_out=None):
     err = np.where(both, np.maximum(np.abs(iy - L), np.abs(ix - P)), 0.0)
     if (err > POS_TOL).any():
         i, j = map(int, np.unravel_index(np.argmax(err), err.shape))
-        ctx.add_failure("C09.position.inexact",
+        key = "C09.position.inexact"
+        if pair["src"].get("from"):     # off by the accumulated start of the slicing steps that produced the source area?
+            r0 = sum(st[0][0] for st in pair["src"]["from"]["steps"])
+            c0 = sum(st[1][0] for st in pair["src"]["from"]["steps"])
+            if abs(iy[i, j] - L[i, j] - r0) <= POS_TOL and abs(ix[i, j] - P[i, j] - c0) <= POS_TOL:
+                key = "C09.position.sliced_source_offset"
+        ctx.add_failure(key,
                         "%s: target pixel (%d,%d): gradient search index (row %r, col %r) differs from the exact position (%.9f, %.9f) by %.3g px"
                         % (pair["tag"], i, j, float(iy[i, j]), float(ix[i, j]), L[i, j], P[i, j], err[i, j]), dict(rp, chunk=BIG_CHUNK, pixel=[i, j]))
     # ---- values of the single-chunk run, then every other chunking against it
@@ -685,7 +710,7 @@ def chunk_sizes_for(ctx, pair):
     cs = [BIG_CHUNK, 16, 5]
     if ctx.thorough:
         cs += [7, 3, 10]
-    elif pair["tag"].startswith(("wide_", "tall_")):
+    elif pair["tag"].startswith(("wide_", "tall_", "sliced")):
         cs = [BIG_CHUNK, 5]
     elif pair["tag"] == "geos_disk_to_stere":
         cs = [BIG_CHUNK, 3]         # small blocks along the limb of the disk (see key crop_at_geos_limb)
@@ -902,7 +927,7 @@ def run(ctx):
                 "thorough adds 7, 3, 10) for nn/bilinear x float64/float32 x 2-D/3-D x chunked source data; pairs with different axis units (degrees <-> metres, "
                 "zero slicer buffer) with target sizes k*chunk+1; resample_blocks called directly with explicit irregular tuple-of-tuples target decompositions "
                 "(non-last chunks differ from the first, one-pixel-thick inner blocks) and irregular source chunkings, against the single block, the lazy results of "
-                "all decompositions also evaluated in ONE dask.compute and in expressions mixing two decompositions; wide/tall sources (indices in the "
+                "all decompositions also evaluated in ONE dask.compute and in expressions mixing two decompositions; source areas that are slices of bigger areas (one / two slicing steps, non-zero start); wide/tall sources (indices in the "
                 "thousands) with data of magnitude <= 1 for the float32 weights (bound 16 u max|data|); the legacy "
                 "parallel_gradient_search over source chunks that overlap by one pixel / partition the source, target cut 2x2; plus synthetic direct calls of the Cython "
                 "kernels (affine, curvilinear, zero-gradient, inconsistent gradients, inf/NaN/huge targets, 1xN sources) and of the block interpolators "
